@@ -136,7 +136,29 @@ func suffixRace(r *ev.Run, e *etcdx.Etcd, rng *rand.Rand, n int) string {
 	}
 	B.M.EnableLeader()
 	step("m1 is PD leader")
-	go func() { defer close(sb.done); B.AM.ClusterDCLocationChecker() }()
+	// Third worker (every other schedule): a second dc-location check on the new leader (in a
+	// server: the GetDCLocationInfo handler or the SyncMaxTS retry path) is started while the first
+	// one is parked inside its transaction holding the AllocatorManager lock; it queues on that
+	// lock, and readers of the suffix width queue behind it. Only writes are gated, so nobody
+	// parks in front of the lock.
+	third := n%2 == 1
+	var bwg sync.WaitGroup
+	bwg.Add(1)
+	go func() { defer bwg.Done(); B.AM.ClusterDCLocationChecker() }()
+	go func() { bwg.Wait(); close(sb.done) }()
+	if third {
+		if !settle(sb) {
+			return ""
+		}
+		if sb.parked {
+			bwg.Add(2)
+			go func() { defer bwg.Done(); B.AM.ClusterDCLocationChecker() }()
+			go func() { defer bwg.Done(); _ = B.AM.GetSuffixBits(); _ = B.AM.GetClusterDCLocations() }()
+			time.Sleep(5 * time.Millisecond) // start order only: let them reach the lock queue
+			step("a second dc-location check and a width reader of m1 queue behind the parked one")
+			r.Count("addon_three_worker_schedules", 1)
+		}
+	}
 	var released []string
 	pi := 0
 	for {
@@ -337,6 +359,16 @@ func suffixAddon(r *ev.Run, rng *rand.Rand, n int) {
 	for i := 0; i < r.Pick(2, 6); i++ {
 		manyDCs(r, e, rng, i)
 	}
+	// the leave / leader change / join / re-join histories: the complete grid in thorough; in quick
+	// the "restart" column (a leader that has never been a follower) and a seeded half of the rest
+	cases := allHistCases()
+	for i, hc := range cases {
+		if !r.Thorough() && hc.leader != "restart" && (i+int(r.Seed))%2 == 0 {
+			continue
+		}
+		suffixHistory(r, e, rng, i, hc)
+	}
+	dcNameSpellings(r, e, rng, 0)
 	for i := 0; i < n; i++ {
 		id := suffixRace(r, e, rng, i)
 		if id == "" {
